@@ -19,8 +19,8 @@ def scenario(tier):
         has_dst = sym.flag("zone_has_dst")
         dst = std + 3600 if has_dst else std
         age = sym.int("file_age_s", 0, 300 * DAY)
-        dst_now = sym.bool("dst_in_force_now") if has_dst else False
-        dst_file = sym.bool("dst_in_force_at_file_time") if has_dst else False
+        dst_now = sym.flag("dst_in_force_now") if has_dst else False
+        dst_file = sym.flag("dst_in_force_at_file_time") if has_dst else False
         if has_dst:
             differ = (dst_now != dst_file) if isinstance(dst_now, bool) else pse.SymBool(dst_now.z != dst_file.z)
             # a daylight-saving period lasts months: the two instants are at least 10 days apart when their DST flags differ,
@@ -30,7 +30,7 @@ def scenario(tier):
             else:
                 sym.assume(pse.SymBool(pse.z3.Implies(differ.z, pse._z(age) >= 10 * DAY)))
         # the file's modification time may lie in the hour that is repeated when daylight saving ends (second occurrence: standard time)
-        rep = sym.bool("file_time_in_repeated_hour") if has_dst else False
+        rep = sym.flag("file_time_in_repeated_hour") if has_dst else False
         if has_dst:
             if isinstance(rep, bool):
                 sym.assume((not rep) or (not dst_file))
